@@ -261,3 +261,16 @@ pub proof fn lemma_canonical_abs_parts(m: nat, p: nat, i: int, fr: int)
     lemma_div_mod_unique(m as int, pow10(p), i, fr);
     lemma_split_pow10(m, p);
 }
+
+// ---- sequence algebra (concatenation is associative, the empty sequence is its left unit)
+pub broadcast proof fn lemma_seq_add_assoc(a: Seq<char>, b: Seq<char>, c: Seq<char>)
+    ensures #[trigger] ((a + b) + c) == a + (b + c)
+{
+    assert(((a + b) + c) =~= a + (b + c));
+}
+
+pub broadcast proof fn lemma_seq_empty_add(a: Seq<char>)
+    ensures #[trigger] (Seq::<char>::empty() + a) == a
+{
+    assert((Seq::<char>::empty() + a) =~= a);
+}
